@@ -1,8 +1,8 @@
 SPECIFICATION SSpec
 CONSTANTS MaxGroups = 2
-          Variants = {0, 1}
+          Variants = {0}
           RSeeds = {37}
-          FmtNames = {"B", "H", "I", "HI", "H2xH", "4x", "8s"}
+          FmtNames = {"bh", "iq", "QlL", "e", "f", "Hd", "?c", "5p"}
 INVARIANTS RoundTripInv
            Emit
 CHECK_DEADLOCK FALSE
